@@ -48,12 +48,11 @@ Definition same_but_gc (f f' : flagset) : Prop :=
   f_sha256_tree f = f_sha256_tree f' /\ f_secp_ops f = f_secp_ops f' /\
   f_malachite f = f_malachite f' /\ f_new_cost_model f = f_new_cost_model f'.
 
-(* C02: the budget only decides between the budget-free outcome and CostExceeded, and a
-   successful call needs no more budget than the cost it reports *)
+(* C02: the budget only decides between the budget-free outcome and CostExceeded; a success
+   stays a success under every larger budget, and needs no more budget than the cost it reports *)
 Definition op_budget (op : opfn) : Prop :=
   forall f a m c v, op f a m = Ok (c, v) ->
-  forall m', (c <= m' -> op f a m' = Ok (c, v)) /\
-             (op f a m' = Ok (c, v) \/ op f a m' = Err CostExceeded).
+  forall m', (m <= m' -> op f a m' = Ok (c, v)) /             (c <= m' -> op f a m' = Ok (c, v)) /             (op f a m' = Ok (c, v) \/ op f a m' = Err CostExceeded).
 
 (* C07: a more restrictive flag set can only turn a success into a failure *)
 Definition op_restrict (op : opfn) : Prop :=
